@@ -113,10 +113,10 @@ def rule_r2(repo, coder='Decoder', rule='C01.R2'):
     for name, fi in sorted(base.methods.items()):
         if not fi.is_abstract:
             continue
-        own = repo.own_method(coder, name, required=False)
+        own = repo.method(coder, name, required=False)
         rr.instance('%s.%s overrides abstract Coder.%s' % (coder, name, name))
         n += 1
-        if own is None:
+        if own is None or own.is_abstract:
             rr.fail('%s.%s:missing' % (coder, name), base.methods[name].where,
                     'abstract Coder.%s is not implemented by %s (Coder does not use ABCMeta, so Python does not enforce it)' % (name, coder))
             continue
@@ -129,16 +129,17 @@ def rule_r2(repo, coder='Decoder', rule='C01.R2'):
         for name, fi in sorted(repo.cls(bname).methods.items()):
             if not fi.is_abstract:
                 continue
-            own = repo.own_method(impl, name, required=False)
+            own = repo.method(impl, name, required=False)
             rr.instance('%s.%s overrides abstract %s.%s' % (impl, name, bname, name))
-            if own is None:
+            if own is None or own.is_abstract:
                 rr.fail('%s.%s:missing' % (impl, name), fi.where, 'abstract %s.%s is not implemented by %s' % (bname, name, impl))
             elif len([p for p in own.params]) != len(fi.params):
                 rr.fail('%s.%s:arity' % (impl, name), own.where, '%s.%s arity differs from the abstract declaration' % (impl, name))
     # mode dispatch
     for prim in PRIMS:
-        fi = repo.own_method(coder, 'process_' + prim, required=False)
-        if fi is None:
+        # (the dispatcher may live in the coder itself or be inherited: it is the method the coder object answers with)
+        fi = repo.method(coder, 'process_' + prim, required=False)
+        if fi is None or fi.is_abstract:
             continue
         for comp in (True, False):
             it = DispatchInterp(repo, coder)
